@@ -6,10 +6,12 @@ Every theorem quantifies over the hash oracle `H` (SHA-256 + curve test, a funct
 FLATTENED seed bytes and the program id), the program id `P`, the seed struct `S` (optional constant
 prefix, any fields, any values) and the account key.
 
-The seed-count side condition is explicit: a struct with `n` user seeds (constant prefix included)
-uses `n + 2` slots on the `find` paths (`seeds()` has a trailing empty slot and the bump is appended
-after it) and on the client `create` path, but only `n + 1` on the `SeedsWithBump` validation path.
-The runtime allows 16. `fifteen_seed_witness` records the excluded point `n = 15` (DESIGN D10).
+Since repo commit 801ca3a the `find` validation path and both client helpers drop the trailing empty
+bump placeholder (`dropTrailingEmpty`), so every path hands the runtime LITERALLY the same list
+`effSeeds S ++ [[bump]]` (`four_paths_same_bytes`), where `effSeeds S = dropTrailingEmpty (seeds S)` is
+the user seeds for every derived struct (`eff_seeds_spec`). No seed-count side condition is left:
+15 user seeds derive on every path (`fifteen_seeds_derive`), 16 are rejected by every path
+(`sixteen_seeds_rejected`, the runtime's own limit).
 -/
 namespace Account.C10
 open Common Account.Seeds
@@ -21,16 +23,55 @@ theorem empty_slot_irrelevant (S : List (List Nat)) (b : Nat) :
 
 example : ([[1, 2], [3]] ++ [[]] ++ [[255]] : List (List Nat)).flatten = [1, 2, 3, 255] := by decide
 
-/-- All four code paths hand the hash the same bytes — the user seeds followed by the bump:
-on-chain `find` and client `find` (`seeds() ++ [[b]]`, empty slot passed), on-chain validation with
-a bump and `signer_seeds` (`seeds_with_bump`: empty slot replaced), client `create` (bump pushed). -/
+/-- All four code paths hand the runtime the SAME seed list, for every `GetSeeds` value (derived or
+hand-written, any number of seeds): on-chain `find` and client `find` search bumps over
+`effSeeds S`, client `create` passes `effSeeds S ++ [[b]]`, and the explicit-bump validation and
+`signer_seeds` pass `seeds_with_bump`, which is the same list. Its bytes are the user seeds followed
+by the bump. -/
 theorem four_paths_same_bytes (S : SeedStruct) (b : Nat) :
-    (seeds S ++ [[b]]).flatten = (userSeeds S ++ [[b]]).flatten
-    ∧ seedsWithBump (seeds S) b = userSeeds S ++ [[b]]
-    ∧ (seedsWithBump (seeds S) b).flatten = (seeds S ++ [[b]]).flatten := by
-  refine ⟨?_, seedsWithBump_seeds S b, seedsWithBump_flatten _ b⟩
-  unfold seeds
-  exact flatten_empty_slot _ b
+    seedsWithBump (seeds S) b = effSeeds S ++ [[b]]
+    ∧ (∀ H P, clientCreate H P S b = create H (effSeeds S ++ [[b]]) P)
+    ∧ (∀ H P, clientFind H P S = find H (effSeeds S) P)
+    ∧ (∀ H P st, st.recorded = none →
+        (validateWithBump H P S b st).1 = .ok ∨ (validateWithBump H P S b st).1 = .addressMismatch →
+        ∃ k, create H (effSeeds S ++ [[b]]) P = .ok k)
+    ∧ (effSeeds S ++ [[b]]).flatten = (userSeeds S ++ [[b]]).flatten := by
+  refine ⟨seedsWithBump_seeds S b, fun _ _ => rfl, fun _ _ => rfl, ?_, ?_⟩
+  · intro H P st hfresh hres
+    unfold validateWithBump at hres
+    rw [hfresh, seedsWithBump_seeds] at hres
+    cases hc : create H (effSeeds S ++ [[b]]) P with
+    | ok k => exact ⟨k, rfl⟩
+    | error e => rw [hc] at hres; simp at hres
+  · simp [effSeeds_flatten]
+
+/-- What `effSeeds` is: exactly the user seeds for every derived struct (the placeholder is what
+gets dropped); for a hand-written `GetSeeds` without placeholder it is the user seeds unless the last
+REAL seed is empty, in which case that seed is dropped — the hashed bytes are the same in every
+case and the list never gets longer. -/
+theorem eff_seeds_spec (S : SeedStruct) :
+    (S.placeholder = true → effSeeds S = userSeeds S)
+    ∧ (S.placeholder = false → (userSeeds S).getLast? ≠ some [] → effSeeds S = userSeeds S)
+    ∧ (S.placeholder = false → (userSeeds S).getLast? = some [] → effSeeds S = (userSeeds S).dropLast)
+    ∧ (effSeeds S).flatten = (userSeeds S).flatten
+    ∧ (effSeeds S).length ≤ (userSeeds S).length := by
+  refine ⟨effSeeds_placeholder S, ?_, ?_, effSeeds_flatten S, ?_⟩
+  · intro hp hl
+    unfold effSeeds seeds dropTrailingEmpty
+    simp only [hp, Bool.false_eq_true, if_false, List.append_nil]
+  · intro hp hl
+    unfold effSeeds seeds dropTrailingEmpty
+    simp only [hp, Bool.false_eq_true, if_false, List.append_nil, hl]
+  · cases hp : S.placeholder
+    · have := dropTrailingEmpty_length_le (seeds S)
+      unfold effSeeds
+      unfold seeds at this ⊢
+      simpa [hp] using this
+    · rw [effSeeds_placeholder S hp]; exact Nat.le_refl _
+
+example : effSeeds ⟨none, [[.uint 1 7], [.arr []]], true⟩ = [[7], []]
+    ∧ effSeeds ⟨none, [[.uint 1 7], [.arr []]], false⟩ = [[7]]
+    ∧ effSeeds ⟨none, [[.uint 1 7]], false⟩ = [[7]] := by decide
 
 /-- `seeds_with_bump` pushing instead of replacing (or the client replacing instead of pushing)
 would hash the same bytes, for ANY seed vector — only the slot count differs. -/
@@ -42,53 +83,62 @@ example : seedsWithBump [[7], []] 9 = [[7], [9]] ∧ seedsWithBump [[7], [8]] 9 
   decide
 
 /-- Validation with `Seeds(S)` on a fresh `Seeded` succeeds iff the account key is the canonical
-program derived address of the user seeds (no empty slot) under `P`; on success exactly the
-canonical bump is recorded, on failure nothing is recorded. Needs `n + 2 ≤ 16`. -/
+program derived address of `effSeeds S` (= the user seeds, `eff_seeds_spec`) under `P`; on success
+exactly the canonical bump is recorded, on failure nothing is recorded. No side condition. -/
 theorem validate_seeds_iff (H : Hash) (P : List Nat) (S : SeedStruct) (st : Seeded)
-    (hfresh : st.recorded = none) (hn : (userSeeds S).length + 2 ≤ 16) :
-    ((validateSeeds H P S st).1 = .ok ↔ ∃ b, find H (userSeeds S) P = some (st.key, b))
-    ∧ (∀ b, find H (userSeeds S) P = some (st.key, b) →
+    (hfresh : st.recorded = none) :
+    ((validateSeeds H P S st).1 = .ok ↔ ∃ b, find H (effSeeds S) P = some (st.key, b))
+    ∧ (∀ b, find H (effSeeds S) P = some (st.key, b) →
+        (validateSeeds H P S st).2 = { st with recorded := some ⟨S, b⟩ })
+    ∧ ((validateSeeds H P S st).1 ≠ .ok → (validateSeeds H P S st).2 = st)
+    ∧ (S.placeholder = true →
+        ((validateSeeds H P S st).1 = .ok ↔ ∃ b, find H (userSeeds S) P = some (st.key, b))) := by
+  have key : ((validateSeeds H P S st).1 = .ok ↔ ∃ b, find H (effSeeds S) P = some (st.key, b))
+    ∧ (∀ b, find H (effSeeds S) P = some (st.key, b) →
         (validateSeeds H P S st).2 = { st with recorded := some ⟨S, b⟩ })
     ∧ ((validateSeeds H P S st).1 ≠ .ok → (validateSeeds H P S st).2 = st) := by
-  unfold validateSeeds
-  rw [hfresh, find_seeds_eq H P S hn]
-  cases hf : find H (userSeeds S) P with
-  | none => simp
-  | some r =>
-    obtain ⟨addr, bump⟩ := r
-    by_cases hk : addr = st.key
-    · subst hk; simp
-    · simp only [hk, if_false]
-      refine ⟨⟨by simp, ?_⟩, ?_, by simp⟩
-      · rintro ⟨b, hb⟩
-        simp only [Option.some.injEq, Prod.mk.injEq] at hb
-        exact absurd hb.1 hk
-      · intro b hb
-        simp only [Option.some.injEq, Prod.mk.injEq] at hb
-        exact absurd hb.1 hk
+    unfold validateSeeds effSeeds
+    rw [hfresh]
+    cases hf : find H (dropTrailingEmpty (seeds S)) P with
+    | none => simp
+    | some r =>
+      obtain ⟨addr, bump⟩ := r
+      by_cases hk : addr = st.key
+      · subst hk; simp
+      · simp only [hk, if_false]
+        refine ⟨⟨by simp, ?_⟩, ?_, by simp⟩
+        · rintro ⟨b, hb⟩
+          simp only [Option.some.injEq, Prod.mk.injEq] at hb
+          exact absurd hb.1 hk
+        · intro b hb
+          simp only [Option.some.injEq, Prod.mk.injEq] at hb
+          exact absurd hb.1 hk
+  refine ⟨key.1, key.2.1, key.2.2, ?_⟩
+  intro hp
+  rw [← effSeeds_placeholder S hp]
+  exact key.1
 
 /-- Non-vacuity: with an always-off-curve hash the canonical bump is 255 and the account whose key
 is that address is accepted, any other key is rejected. -/
 example :
     let H : Hash := fun flat _ => some flat
-    let S : SeedStruct := ⟨some [84], [[.uint 2 513], [.key [9, 9]]]⟩
+    let S : SeedStruct := ⟨some [84], [[.uint 2 513], [.key [9, 9]]], true⟩
     (validateSeeds H [1] S ⟨[84, 1, 2, 9, 9, 255], none⟩).1 = .ok
     ∧ (validateSeeds H [1] S ⟨[84, 1, 2, 9, 9, 255], none⟩).2.recorded = some ⟨S, 255⟩
     ∧ (validateSeeds H [1] S ⟨[84, 2, 1, 9, 9, 255], none⟩).1 = .addressMismatch := by
   decide
 
 /-- Validation with `SeedsWithBump{S, b}` on a fresh `Seeded` succeeds iff the account key is the
-address created from the user seeds and `[b]`. No count side condition beyond the runtime's own
-(this path uses `n + 1` slots, exactly like a direct `create_program_address`). -/
+address created from `effSeeds S` (= the user seeds, `eff_seeds_spec`) and `[b]`. -/
 theorem validate_bump_iff (H : Hash) (P : List Nat) (S : SeedStruct) (b : Nat) (st : Seeded)
     (hfresh : st.recorded = none) :
-    ((validateWithBump H P S b st).1 = .ok ↔ create H (userSeeds S ++ [[b]]) P = .ok st.key)
+    ((validateWithBump H P S b st).1 = .ok ↔ create H (effSeeds S ++ [[b]]) P = .ok st.key)
     ∧ ((validateWithBump H P S b st).1 = .ok →
         (validateWithBump H P S b st).2 = { st with recorded := some ⟨S, b⟩ })
     ∧ ((validateWithBump H P S b st).1 ≠ .ok → (validateWithBump H P S b st).2 = st) := by
   unfold validateWithBump
   rw [hfresh, seedsWithBump_seeds]
-  cases hc : create H (userSeeds S ++ [[b]]) P with
+  cases hc : create H (effSeeds S ++ [[b]]) P with
   | error e => simp
   | ok addr =>
     by_cases hk : addr = st.key
@@ -100,7 +150,7 @@ theorem validate_bump_iff (H : Hash) (P : List Nat) (S : SeedStruct) (b : Nat) (
 
 example :
     let H : Hash := fun flat _ => if flat.getLast? = some 7 then none else some flat
-    let S : SeedStruct := ⟨none, [[.sint 1 (-1)]]⟩
+    let S : SeedStruct := ⟨none, [[.sint 1 (-1)]], true⟩
     (validateWithBump H [1] S 3 ⟨[255, 3], none⟩).1 = .ok
     ∧ (validateWithBump H [1] S 7 ⟨[255, 7], none⟩).1 = .createErr .invalidSeeds
     ∧ (validateWithBump H [1] S 4 ⟨[255, 3], none⟩).1 = .addressMismatch := by
@@ -115,58 +165,49 @@ theorem validate_sticky (H : Hash) (P : List Nat) (S : SeedStruct) (b : Nat) (st
   rw [h]
   exact ⟨rfl, rfl⟩
 
-example : validateSeeds (fun _ _ => none) [] ⟨none, []⟩ ⟨[1], some ⟨⟨none, []⟩, 4⟩⟩
-    = (.ok, ⟨[1], some ⟨⟨none, []⟩, 4⟩⟩) := by decide
+example : validateSeeds (fun _ _ => none) [] ⟨none, [], true⟩ ⟨[1], some ⟨⟨none, [], true⟩, 4⟩⟩
+    = (.ok, ⟨[1], some ⟨⟨none, [], true⟩, 4⟩⟩) := by decide
 
-/-- After a successful `Seeds(S)` validation (fresh `Seeded`, `n + 2 ≤ 16`): the signer seeds
-recreate the account key, the recorded bump is a real bump byte, and both client helpers agree
-(`find` returns exactly the key and the recorded bump; `create` with the recorded bump returns the
-key). -/
+/-- After a successful `Seeds(S)` validation (fresh `Seeded`): the signer seeds recreate the account
+key, the recorded bump is a real bump byte, and both client helpers agree (`find` returns exactly
+the key and the recorded bump; `create` with the recorded bump returns the key). No side condition. -/
 theorem recorded_seeds_recreate (H : Hash) (P : List Nat) (S : SeedStruct) (st : Seeded)
-    (hfresh : st.recorded = none) (hn : (userSeeds S).length + 2 ≤ 16)
-    (hok : (validateSeeds H P S st).1 = .ok) :
-    ∃ bump ss,
+    (hfresh : st.recorded = none) (hok : (validateSeeds H P S st).1 = .ok) :
+    ∃ bump,
       accessSeeds (validateSeeds H P S st).2 = some ⟨S, bump⟩
       ∧ 1 ≤ bump ∧ bump ≤ 255
-      ∧ signerSeeds (validateSeeds H P S st).2 = some ss
-      ∧ create H ss P = .ok st.key
+      ∧ signerSeeds (validateSeeds H P S st).2 = some (effSeeds S ++ [[bump]])
+      ∧ create H (effSeeds S ++ [[bump]]) P = .ok st.key
       ∧ clientFind H P S = some (st.key, bump)
       ∧ clientCreate H P S bump = .ok st.key := by
-  obtain ⟨hiff, hrec, -⟩ := validate_seeds_iff H P S st hfresh hn
+  obtain ⟨hiff, hrec, -, -⟩ := validate_seeds_iff H P S st hfresh
   obtain ⟨b, hb⟩ := hiff.1 hok
   have hst := hrec b hb
   obtain ⟨hmem, hcre⟩ := find_some H _ P _ _ hb
   rw [mem_bumps] at hmem
-  refine ⟨b, userSeeds S ++ [[b]], ?_, hmem.1, hmem.2, ?_, hcre, ?_, ?_⟩
+  refine ⟨b, ?_, hmem.1, hmem.2, ?_, hcre, hb, hcre⟩
   · rw [hst]; rfl
   · rw [hst]; simp only [signerSeeds, Option.map_some, seedsWithBump_seeds]
-  · unfold clientFind; rw [find_seeds_eq H P S hn]; exact hb
-  · unfold clientCreate seeds
-    rw [create_empty_slot H _ b P hn]; exact hcre
 
 /-- After a successful `SeedsWithBump{S, b}` validation (fresh `Seeded`): the signer seeds recreate
-the account key (always), and the client `create` helper with the same bump returns the key
-(`n + 2 ≤ 16`, because the client pushes after the empty slot). The client `find` helper returns the
-key only when `b` is the canonical bump — that is `validate_seeds_iff`. -/
+the account key and the client `create` helper with the same bump returns the key. The client
+`find` helper returns the key only when `b` is the canonical bump — that is `validate_seeds_iff`. -/
 theorem recorded_bump_recreate (H : Hash) (P : List Nat) (S : SeedStruct) (b : Nat) (st : Seeded)
     (hfresh : st.recorded = none) (hok : (validateWithBump H P S b st).1 = .ok) :
     accessSeeds (validateWithBump H P S b st).2 = some ⟨S, b⟩
-    ∧ signerSeeds (validateWithBump H P S b st).2 = some (userSeeds S ++ [[b]])
-    ∧ create H (userSeeds S ++ [[b]]) P = .ok st.key
-    ∧ ((userSeeds S).length + 2 ≤ 16 → clientCreate H P S b = .ok st.key) := by
+    ∧ signerSeeds (validateWithBump H P S b st).2 = some (effSeeds S ++ [[b]])
+    ∧ create H (effSeeds S ++ [[b]]) P = .ok st.key
+    ∧ clientCreate H P S b = .ok st.key := by
   obtain ⟨hiff, hrec, -⟩ := validate_bump_iff H P S b st hfresh
   have hst := hrec hok
   have hcre := hiff.1 hok
-  refine ⟨?_, ?_, hcre, ?_⟩
+  refine ⟨?_, ?_, hcre, hcre⟩
   · rw [hst]; rfl
   · rw [hst]; simp only [signerSeeds, Option.map_some, seedsWithBump_seeds]
-  · intro hn
-    unfold clientCreate seeds
-    rw [create_empty_slot H _ b P hn]; exact hcre
 
 example :
     let H : Hash := fun flat _ => some flat
-    let S : SeedStruct := ⟨some [84], [[.uint 1 5]]⟩
+    let S : SeedStruct := ⟨some [84], [[.uint 1 5]], true⟩
     let st' := (validateSeeds H [1] S ⟨[84, 5, 255], none⟩).2
     signerSeeds st' = some [[84], [5], [255]]
     ∧ clientFind H [1] S = some ([84, 5, 255], 255)
@@ -179,7 +220,8 @@ integers of every width (two's complement when signed), verbatim for keys and by
 empty slot. The client helpers and the on-chain validation call this same function, so they cannot
 disagree on any of the three. -/
 theorem order_and_prefix (S : SeedStruct) :
-    seeds S = S.const.toList ++ S.fields.map compBytes ++ [[]]
+    (S.placeholder = true → seeds S = S.const.toList ++ S.fields.map compBytes ++ [[]])
+    ∧ (S.placeholder = false → seeds S = S.const.toList ++ S.fields.map compBytes)
     ∧ (∀ c, S.const = some c → (seeds S)[0]? = some c
         ∧ ∀ i (h : i < S.fields.length), (seeds S)[i + 1]? = some (compBytes S.fields[i]))
     ∧ (S.const = none → ∀ i (h : i < S.fields.length), (seeds S)[i]? = some (compBytes S.fields[i]))
@@ -192,9 +234,10 @@ theorem order_and_prefix (S : SeedStruct) :
     ∧ (∀ v, compBytes [v] = bytesOf v)
     ∧ (∀ vs ws, compBytes (vs ++ ws) = compBytes vs ++ compBytes ws)
     ∧ (compBytes [] = [] ∧ compBytes [.arr []] = [])
-    ∧ (∀ H P, clientFind H P S = find H (seeds S) P)
-    ∧ (∀ H P b, clientCreate H P S b = create H (seeds S ++ [[b]]) P) := by
-  refine ⟨rfl, ?_, ?_, ?_, ?_, ?_, ?_, ⟨rfl, rfl⟩, compBytes_singleton, ?_, ⟨rfl, rfl⟩,
+    ∧ (∀ H P, clientFind H P S = find H (dropTrailingEmpty (seeds S)) P)
+    ∧ (∀ H P b, clientCreate H P S b = create H (dropTrailingEmpty (seeds S) ++ [[b]]) P) := by
+  refine ⟨fun hp => by simp [seeds, userSeeds, hp], fun hp => by simp [seeds, userSeeds, hp],
+    ?_, ?_, ?_, ?_, ?_, ?_, ⟨rfl, rfl⟩, compBytes_singleton, ?_, ⟨rfl, rfl⟩,
     fun _ _ => rfl, fun _ _ _ => rfl⟩
   · intro c hc
     unfold seeds userSeeds
@@ -228,7 +271,7 @@ theorem order_and_prefix (S : SeedStruct) :
   · intro vs ws; simp [compBytes]
 
 example : seeds ⟨some [84, 69], [[.uint 2 258], [.sint 2 (-2)], [.key [7, 7]], [.arr [1, 2, 3]],
-      [.uint 4 1, .uint 2 2, .bool true], [.arr []], [.bool false]]⟩
+      [.uint 4 1, .uint 2 2, .bool true], [.arr []], [.bool false]], true⟩
     = [[84, 69], [2, 1], [254, 255], [7, 7], [1, 2, 3], [1, 0, 0, 0, 2, 0, 1], [], [0], []] := by
   decide
 
@@ -242,7 +285,8 @@ theorem bump_slot_is_last (ss : List (List Nat)) (b : Nat) :
     ∧ (ss.getLast? ≠ some [] → seedsWithBump ss b = ss ++ [[b]])
     ∧ (∀ i, i + 1 < ss.length → (seedsWithBump ss b)[i]? = ss[i]?)
     ∧ (seedsWithBump ss b).getLast? = some [b]
-    ∧ (∀ S : SeedStruct, seedsWithBump (seeds S) b = userSeeds S ++ [[b]]
+    ∧ seedsWithBump ss b = dropTrailingEmpty ss ++ [[b]]
+    ∧ (∀ S : SeedStruct, S.placeholder = true → seedsWithBump (seeds S) b = userSeeds S ++ [[b]]
         ∧ ∀ i, i < (userSeeds S).length → (seedsWithBump (seeds S) b)[i]? = (userSeeds S)[i]?) := by
   have h1 : ss.getLast? = some [] → seedsWithBump ss b = ss.dropLast ++ [[b]] := by
     intro h; unfold seedsWithBump; rw [h]
@@ -251,7 +295,7 @@ theorem bump_slot_is_last (ss : List (List Nat)) (b : Nat) :
     split
     · rename_i h'; exact absurd h' h
     · rfl
-  refine ⟨h1, h2, ?_, ?_, ?_⟩
+  refine ⟨h1, h2, ?_, ?_, seedsWithBump_eq_drop ss b, ?_⟩
   · intro i hi
     by_cases h : ss.getLast? = some []
     · rw [h1 h, List.getElem?_append_left (by simp; omega)]
@@ -262,17 +306,19 @@ theorem bump_slot_is_last (ss : List (List Nat)) (b : Nat) :
   · by_cases h : ss.getLast? = some []
     · rw [h1 h]; simp
     · rw [h2 h]; simp
-  · intro S
-    refine ⟨seedsWithBump_seeds S b, ?_⟩
+  · intro S hp
+    have he : seedsWithBump (seeds S) b = userSeeds S ++ [[b]] := by
+      rw [seedsWithBump_seeds, effSeeds_placeholder S hp]
+    refine ⟨he, ?_⟩
     intro i hi
-    rw [seedsWithBump_seeds, List.getElem?_append_left hi]
+    rw [he, List.getElem?_append_left hi]
 
 /-- Empty components in the middle stay where they are; only the trailing slot takes the bump
 (`[[1], [], [2], []]`: the FIRST empty slice is at index 1, the bump goes to index 3). -/
 example : seedsWithBump [[1], [], [2], []] 9 = [[1], [], [2], [9]]
     ∧ seedsWithBump [[], [5], []] 9 = [[], [5], [9]]
     ∧ seedsWithBump [[], [], []] 9 = [[], [], [9]]
-    ∧ seedsWithBump (seeds ⟨some [], [[.uint 1 7], [.arr []], [.uint 1 8]]⟩) 9 = [[], [7], [], [8], [9]] := by
+    ∧ seedsWithBump (seeds ⟨some [], [[.uint 1 7], [.arr []], [.uint 1 8]], true⟩) 9 = [[], [7], [], [8], [9]] := by
   decide
 
 /-! ## Repeated validation of ONE `Seeded` value
@@ -297,7 +343,7 @@ theorem failed_validation_leaves_no_trace (H : Hash) (P : List Nat) (s : VStep) 
     | some r => simp [hr] at hfail
     | none =>
       simp only [hr] at hfail ⊢
-      cases hf : find H (seeds S) P with
+      cases hf : find H (dropTrailingEmpty (seeds S)) P with
       | none => rfl
       | some r =>
         obtain ⟨a, b⟩ := r
@@ -322,8 +368,8 @@ theorem failed_validation_leaves_no_trace (H : Hash) (P : List Nat) (s : VStep) 
 
 example :
     let H : Hash := fun flat _ => some flat
-    let right : SeedStruct := ⟨none, [[.uint 1 5]]⟩
-    let wrong : SeedStruct := ⟨none, [[.uint 1 6]]⟩
+    let right : SeedStruct := ⟨none, [[.uint 1 5]], true⟩
+    let wrong : SeedStruct := ⟨none, [[.uint 1 6]], true⟩
     -- validate(wrong seeds) → validate(right seeds) → access_seeds
     (runHistory H [] [.seeds wrong, .bump wrong 255, .seeds right] ⟨[5, 255], none⟩)
       = ([.addressMismatch, .addressMismatch, .ok], ⟨[5, 255], some ⟨right, 255⟩⟩)
@@ -357,7 +403,7 @@ theorem history_first_success_wins (H : Hash) (P : List Nat) (hs : List VStep) (
             simp only [applyStep] at hok ⊢
             unfold validateSeeds at hok ⊢
             simp only [hfresh] at hok ⊢
-            cases hf : find H (seeds S) P with
+            cases hf : find H (dropTrailingEmpty (seeds S)) P with
             | none => simp [hf] at hok
             | some r =>
               obtain ⟨a, b⟩ := r
@@ -386,7 +432,7 @@ theorem history_first_success_wins (H : Hash) (P : List Nat) (hs : List VStep) (
             simp only [applyStep] at hok ⊢
             unfold validateSeeds at hok ⊢
             simp only [hfresh] at hok ⊢
-            cases hf : find H (seeds S) P with
+            cases hf : find H (dropTrailingEmpty (seeds S)) P with
             | none => simp [hf] at hok
             | some r =>
               obtain ⟨a, b⟩ := r
@@ -429,76 +475,144 @@ theorem history_first_success_wins (H : Hash) (P : List Nat) (hs : List VStep) (
         · simp only [runHistory, hsame, List.cons_append]; rw [hres]
 
 /-- Whatever the history on a fresh value, a recorded `(seeds, bump)` always recreates the account
-key: `create(user seeds ++ [bump]) = key` — the signer seeds of a `Seeded` are never stale. No seed
-count side condition: a `find` that succeeds WITH the empty slot shows there was room for it. -/
+key: `create(effSeeds ++ [bump]) = key` — the signer seeds of a `Seeded` are never stale. -/
 theorem history_recorded_sound (H : Hash) (P : List Nat) (hs : List VStep) (st : Seeded)
     (hfresh : st.recorded = none) (r : Recorded)
     (hr : (runHistory H P hs st).2.recorded = some r) :
     (runHistory H P hs st).2.key = st.key
-    ∧ create H (userSeeds r.seeds ++ [[r.bump]]) P = .ok st.key
-    ∧ signerSeeds (runHistory H P hs st).2 = some (userSeeds r.seeds ++ [[r.bump]]) := by
+    ∧ create H (effSeeds r.seeds ++ [[r.bump]]) P = .ok st.key
+    ∧ signerSeeds (runHistory H P hs st).2 = some (effSeeds r.seeds ++ [[r.bump]]) := by
   rcases history_first_success_wins H P hs st hfresh with ⟨h1, -⟩ | ⟨pre, s, post, -, -, hok, hfin, -⟩
   · rw [h1, hfresh] at hr; cases hr
   · rw [hfin] at hr ⊢
     cases s with
     | seeds S =>
       simp only [applyStep] at hok hr ⊢
-      unfold validateSeeds at hok hr ⊢
-      simp only [hfresh] at hok hr ⊢
-      cases hf : find H (seeds S) P with
-      | none => simp [hf] at hok
-      | some q =>
-        obtain ⟨a, b⟩ := q
-        simp only [hf] at hok hr ⊢
-        by_cases hk : a = st.key
-        · simp only [hk, if_true, Option.some.injEq] at hr ⊢
-          subst hr
-          obtain ⟨-, hc⟩ := find_some H _ P _ _ hf
-          unfold seeds at hc
-          refine ⟨trivial, ?_, ?_⟩
-          · rw [← hk]; exact create_empty_slot_ok H _ b P a hc
-          · simp [signerSeeds, seedsWithBump_seeds]
-        · simp [hk] at hok
+      obtain ⟨bump, hacc, -, -, hsig, hcre, -, -⟩ := recorded_seeds_recreate H P S st hfresh hok
+      have hkey : (validateSeeds H P S st).2.key = st.key := by
+        obtain ⟨hiff, hrec, -, -⟩ := validate_seeds_iff H P S st hfresh
+        obtain ⟨b, hb⟩ := hiff.1 hok
+        rw [hrec b hb]
+      unfold accessSeeds at hacc
+      rw [hacc] at hr
+      cases hr
+      exact ⟨hkey, hcre, hsig⟩
     | bump S b =>
       simp only [applyStep] at hok hr ⊢
-      unfold validateWithBump at hok hr ⊢
-      simp only [hfresh] at hok hr ⊢
-      rw [seedsWithBump_seeds] at hok hr ⊢
-      cases hc : create H (userSeeds S ++ [[b]]) P with
-      | error e => simp [hc] at hok
-      | ok a =>
-        simp only [hc] at hok hr ⊢
-        by_cases hk : a = st.key
-        · simp only [hk, if_true, Option.some.injEq] at hr ⊢
-          subst hr
-          refine ⟨trivial, ?_, ?_⟩
-          · rw [← hk]; exact hc
-          · simp [signerSeeds, seedsWithBump_seeds]
-        · simp [hk] at hok
+      obtain ⟨hacc, hsig, hcre, -⟩ := recorded_bump_recreate H P S b st hfresh hok
+      have hkey : (validateWithBump H P S b st).2.key = st.key := by
+        obtain ⟨-, hrec, -⟩ := validate_bump_iff H P S b st hfresh
+        rw [hrec hok]
+      unfold accessSeeds at hacc
+      rw [hacc] at hr
+      cases hr
+      exact ⟨hkey, hcre, hsig⟩
 
 example :
     let H : Hash := fun flat _ => if flat.getLast? = some 255 then none else some flat
-    let S : SeedStruct := ⟨some [], [[.arr []], [.uint 1 4]]⟩
-    let fin := (runHistory H [] [.bump S 255, .seeds ⟨none, []⟩, .seeds S, .bump ⟨none, []⟩ 1] ⟨[4, 254], none⟩)
+    let S : SeedStruct := ⟨some [], [[.arr []], [.uint 1 4]], true⟩
+    let E : SeedStruct := ⟨none, [], true⟩
+    let fin := (runHistory H [] [.bump S 255, .seeds E, .seeds S, .bump E 1] ⟨[4, 254], none⟩)
     fin.1 = [.createErr .invalidSeeds, .addressMismatch, .ok, .ok]
     ∧ signerSeeds fin.2 = some [[], [], [4], [254]] := by
   decide
 
-/-- The excluded point (DESIGN D10): a struct with 15 one-byte fields. The canonical address of its
-15 seeds exists (15 + bump = 16 slots), validation with the explicit bump accepts it and the signer
-seeds recreate it — but every path through `seeds()` + appended bump uses 17 slots:
-`Seeds(..)` validation and the client `find` helper panic, the client `create` helper errors. -/
-theorem fifteen_seed_witness :
+/-- The former excluded point (DESIGN D10, repaired by repo commit 801ca3a): a struct with 15 one-byte
+fields. All four paths now derive and agree: `Seeds(..)` validation accepts the canonical address
+and records the canonical bump, the client `find` helper returns the same pair, the client `create`
+helper and the explicit-bump validation accept it, the signer seeds recreate it. -/
+theorem fifteen_seeds_derive :
     let H : Hash := fun flat _ => some flat
-    let S : SeedStruct := ⟨none, (List.range 15).map fun i => [.uint 1 i]⟩
+    let S : SeedStruct := ⟨none, (List.range 15).map fun i => [.uint 1 i], true⟩
     let key := (List.range 15) ++ [255]
     (userSeeds S).length = 15
     ∧ find H (userSeeds S) [] = some (key, 255)
-    ∧ (validateSeeds H [] S ⟨key, none⟩).1 = .panic
-    ∧ clientFind H [] S = none
-    ∧ clientCreate H [] S 255 = .error .maxSeedLengthExceeded
+    ∧ validateSeeds H [] S ⟨key, none⟩ = (.ok, ⟨key, some ⟨S, 255⟩⟩)
+    ∧ clientFind H [] S = some (key, 255)
+    ∧ clientCreate H [] S 255 = .ok key
     ∧ (validateWithBump H [] S 255 ⟨key, none⟩).1 = .ok
-    ∧ (signerSeeds (validateWithBump H [] S 255 ⟨key, none⟩).2).map (create H · []) = some (.ok key) := by
+    ∧ (signerSeeds (validateSeeds H [] S ⟨key, none⟩).2).map (create H · []) = some (.ok key) := by
+  decide
+
+/-- The runtime's own limit, hit consistently: with 16 (or more) effective seeds there is no room for
+the bump, and EVERY path refuses, whatever the hash: `Seeds(..)` validation and the client `find`
+helper find nothing (panic), explicit-bump validation and the client `create` helper return
+`MaxSeedLengthExceeded`; nothing is recorded. -/
+theorem sixteen_seeds_rejected (H : Hash) (P : List Nat) (S : SeedStruct) (b : Nat) (st : Seeded)
+    (hfresh : st.recorded = none) (h16 : 16 ≤ (effSeeds S).length) :
+    validateSeeds H P S st = (.panic, st)
+    ∧ validateWithBump H P S b st = (.createErr .maxSeedLengthExceeded, st)
+    ∧ clientFind H P S = none
+    ∧ clientCreate H P S b = .error .maxSeedLengthExceeded
+    ∧ find H (effSeeds S) P = none := by
+  have hc : ∀ c, create H (effSeeds S ++ [[c]]) P = .error .maxSeedLengthExceeded := by
+    intro c
+    unfold create
+    have : (effSeeds S ++ [[c]]).length > MAX_SEEDS := by
+      unfold MAX_SEEDS; simp; omega
+    rw [if_pos this]
+  have hf : find H (effSeeds S) P = none := by
+    unfold find
+    cases bumps with
+    | nil => rfl
+    | cons c cs => unfold findIn; rw [hc c]
+  refine ⟨?_, ?_, hf, hc b, hf⟩
+  · unfold validateSeeds
+    rw [hfresh]
+    unfold effSeeds at hf
+    rw [hf]
+  · unfold validateWithBump
+    rw [hfresh, seedsWithBump_seeds, hc b]
+
+example :
+    let H : Hash := fun flat _ => some flat
+    let S : SeedStruct := ⟨none, (List.range 16).map fun i => [.uint 1 i], true⟩
+    (effSeeds S).length = 16
+    ∧ (validateSeeds H [] S ⟨[], none⟩).1 = .panic
+    ∧ (validateWithBump H [] S 255 ⟨[], none⟩).1 = .createErr .maxSeedLengthExceeded
+    ∧ clientFind H [] S = none
+    ∧ clientCreate H [] S 255 = .error .maxSeedLengthExceeded := by
+  decide
+
+/-- The new degree of freedom: a hand-written `GetSeeds` WITHOUT placeholder whose last real seed is
+empty. `without_bump_placeholder` pops that real seed; the hashed bytes are the same
+(`empty_slot_irrelevant`), so every path still derives the address of the declared seeds and they
+still agree with each other — only the slot count is one lower than the declaration says. -/
+theorem trailing_empty_real_seed (H : Hash) (P : List Nat) (S : SeedStruct) (b : Nat)
+    (hp : S.placeholder = false) (hl : (userSeeds S).getLast? = some []) :
+    effSeeds S = (userSeeds S).dropLast
+    ∧ seedsWithBump (seeds S) b = (userSeeds S).dropLast ++ [[b]]
+    ∧ (effSeeds S ++ [[b]]).flatten = (userSeeds S ++ [[b]]).flatten
+    ∧ ((userSeeds S).length + 1 ≤ 16 →
+        clientCreate H P S b = create H (userSeeds S ++ [[b]]) P) := by
+  have he := (eff_seeds_spec S).2.2.1 hp hl
+  refine ⟨he, by rw [seedsWithBump_seeds, he], by simp [effSeeds_flatten], ?_⟩
+  intro hn
+  have hne : userSeeds S ≠ [] := by
+    intro h0; rw [h0] at hl; simp at hl
+  have hlast : (userSeeds S).getLast hne = [] := by
+    have := List.getLast?_eq_some_getLast hne
+    rw [this] at hl
+    exact Option.some.inj hl
+  have hd : userSeeds S = (userSeeds S).dropLast ++ [[]] := by
+    conv => lhs; rw [← List.dropLast_concat_getLast hne, hlast]
+  show create H (effSeeds S ++ [[b]]) P = _
+  rw [he]
+  conv => rhs; rw [hd]
+  symm
+  apply create_empty_slot
+  have : (userSeeds S).dropLast.length = (userSeeds S).length - 1 := by simp
+  have hpos : 0 < (userSeeds S).length := List.length_pos_iff.mpr hne
+  omega
+
+example :
+    let H : Hash := fun flat _ => some flat
+    let S : SeedStruct := ⟨none, [[.uint 1 9], [.arr []]], false⟩
+    seeds S = [[9], []] ∧ effSeeds S = [[9]]
+    ∧ validateSeeds H [] S ⟨[9, 255], none⟩ = (.ok, ⟨[9, 255], some ⟨S, 255⟩⟩)
+    ∧ signerSeeds (validateSeeds H [] S ⟨[9, 255], none⟩).2 = some [[9], [255]]
+    ∧ clientFind H [] S = some ([9, 255], 255)
+    ∧ clientCreate H [] S 255 = .ok [9, 255] := by
   decide
 
 end Account.C10
